@@ -256,3 +256,27 @@ def c06_empty_operand(rec, params):
     a, b = cs['a'], cs['b']
     empty = lambda x: any(len(x.get(k, [0])) == 0 for k in ('index', 'columns') if k in x)
     return empty(a) or empty(b)
+
+
+@classifier
+def c11_empty_aligned_axis(rec, params):
+    cs = (rec.get('case') or {}).get('cs') or {}
+    act = rec.get('actual') or {}
+    if act.get('k') != 'err' or cs.get('op') not in ('f_concat', 'f_concat_items'):
+        return False
+    import json
+    key = 'columns' if cs['axis'] == 0 else 'index'
+    sets = [set(json.dumps(l) for l in f[key]) for f in cs['frames']]
+    if not sets:
+        return False
+    want = set.union(*sets) if cs['union'] else set.intersection(*sets)
+    return len(want) == 0
+
+
+@classifier
+def c11_empty_input(rec, params):
+    cs = (rec.get('case') or {}).get('cs') or {}
+    act = rec.get('actual') or {}
+    if act.get('k') != 'err' or cs.get('op') not in ('f_concat', 'f_concat_items', 'f_overlay'):
+        return False
+    return any(len(f['index']) == 0 or len(f['columns']) == 0 for f in cs['frames'])
